@@ -197,7 +197,7 @@ func c19NonTrivial(size int64, c uint32) bool {
 func TestVerifC19Geometry(t *testing.T) {
 	rec := verifkit.NewRecorder("C19", "geometry")
 	defer rec.Flush()
-	dir := t.TempDir()
+	dir := verifkit.ScratchDir(t, "scratch")
 	fail := func(sig, detail string) {
 		rec.Fail(t, sig, detail)
 	}
@@ -561,7 +561,7 @@ func c19ProbeReceiver(dir string, size int64, c uint32, resume bool) (string, st
 func TestVerifC19Receiver(t *testing.T) {
 	rec := verifkit.NewRecorder("C19", "receiver")
 	defer rec.Flush()
-	dir := filepath.Join(t.TempDir(), "out")
+	dir := filepath.Join(verifkit.ScratchDir(t, "c19"), "out")
 	sh, nsh := verifkit.Shard()
 	run := func(f verifkit.Failer, size int64, c uint32, resume bool, class string) {
 		t0 := time.Now()
